@@ -63,6 +63,29 @@ func (s *splitReader) Read(p []byte) (int, error) {
 }
 
 // splitWriter forwards writes in pieces.
+// c18FailWriter accepts `after` bytes and then fails (with an error, or with
+// a short write and an error).
+type c18FailWriter struct {
+	after  int
+	short  bool
+	n      int
+	failed bool
+}
+
+func (w *c18FailWriter) Write(p []byte) (int, error) {
+	if w.n+len(p) <= w.after {
+		w.n += len(p)
+		return len(p), nil
+	}
+	w.failed = true
+	k := 0
+	if w.short {
+		k = w.after - w.n
+		w.n = w.after
+	}
+	return k, io.ErrClosedPipe
+}
+
 type splitWriter struct {
 	w io.Writer
 	t *Tape
@@ -235,6 +258,19 @@ func c18Frames(r *Run) {
 	t := r.Tape
 	for k := 0; k < t.Range(2, 8) && !r.Failed(); k++ {
 		r.Step()
+		if t.Chance(1, 3) {
+			// a frame for another peer whose connection breaks in the middle of
+			// the write (error or short write after some bytes): the failure is
+			// reported, and nothing of that frame may turn up in what is written
+			// to anybody else afterwards (the round trip below)
+			fw := &c18FailWriter{after: t.Range(0, 60), short: t.Chance(1, 2)}
+			lost := genFrame(t)
+			err := litefs.WriteStreamFrame(fw, lost)
+			r.Count("fault.frame_write_error")
+			if !r.Check(err != nil || !fw.failed, "c18.frame-write-error", "writing %T to a connection that broke after %d bytes reported success", lost, fw.after) {
+				return
+			}
+		}
 		f := genFrame(t)
 		var enc bytes.Buffer
 		if err := litefs.WriteStreamFrame(&splitWriter{&enc, t}, f); err != nil {
